@@ -6,7 +6,7 @@ Method: split a 64-bit pattern into its top bit and the low 63 bits (`BitVec.con
 namespace TantivyModel.Columnar
 open TantivyModel
 
-theorem hb_cons : Gen.HIGHEST_BIT_BV = BitVec.cons true 0#63 := by decide
+theorem hb_cons : Gen.Col.HIGHEST_BIT_BV = BitVec.cons true 0#63 := by decide
 
 /-- the order an `f64` bit pattern has under IEEE-754 `totalOrder` (sign-magnitude):
 non-negative patterns by magnitude, negative patterns reversed, below all non-negative ones -/
@@ -21,36 +21,36 @@ theorem toNat_cons63 (m : Bool) (l : BitVec 63) :
   rw [BitVec.toNat_cons', Nat.shiftLeft_eq]
 
 theorem i64_to_u64_cons (m : Bool) (l : BitVec 63) :
-    Gen.i64_to_u64 (BitVec.cons m l) = BitVec.cons (!m) l := by
-  unfold Gen.i64_to_u64
+    Gen.Col.i64_to_u64 (BitVec.cons m l) = BitVec.cons (!m) l := by
+  unfold Gen.Col.i64_to_u64
   rw [hb_cons, BitVec.cons_xor_cons]
   simp
 
 theorem u64_to_i64_cons (m : Bool) (l : BitVec 63) :
-    Gen.u64_to_i64 (BitVec.cons m l) = BitVec.cons (!m) l := by
-  unfold Gen.u64_to_i64
+    Gen.Col.u64_to_i64 (BitVec.cons m l) = BitVec.cons (!m) l := by
+  unfold Gen.Col.u64_to_i64
   rw [hb_cons, BitVec.cons_xor_cons]
   simp
 
 theorem and_hb_cons (m : Bool) (l : BitVec 63) :
-    (BitVec.cons m l &&& Gen.HIGHEST_BIT_BV = 0#64) ↔ m = false := by
+    (BitVec.cons m l &&& Gen.Col.HIGHEST_BIT_BV = 0#64) ↔ m = false := by
   rw [hb_cons, BitVec.cons_and_cons]
   have h0 : (0#64 : BitVec 64) = BitVec.cons false 0#63 := by decide
   rw [h0]
   cases m <;> simp
 
 theorem f64_to_u64_cons (m : Bool) (l : BitVec 63) :
-    Gen.f64_to_u64 (BitVec.cons m l) = if m then BitVec.cons false (~~~ l) else BitVec.cons true l := by
-  unfold Gen.f64_to_u64
+    Gen.Col.f64_to_u64 (BitVec.cons m l) = if m then BitVec.cons false (~~~ l) else BitVec.cons true l := by
+  unfold Gen.Col.f64_to_u64
   simp only [and_hb_cons]
   cases m
   · simp only [Bool.false_eq_true, if_false]; rw [hb_cons, BitVec.cons_xor_cons]; simp
   · simp [BitVec.not_cons]
 
 theorem u64_to_f64_cons (m : Bool) (l : BitVec 63) :
-    Gen.u64_to_f64 (BitVec.cons m l) = if m then BitVec.cons false l else BitVec.cons true (~~~ l) := by
-  unfold Gen.u64_to_f64
-  have h : (BitVec.cons m l &&& Gen.HIGHEST_BIT_BV ≠ 0#64) ↔ m = true := by
+    Gen.Col.u64_to_f64 (BitVec.cons m l) = if m then BitVec.cons false l else BitVec.cons true (~~~ l) := by
+  unfold Gen.Col.u64_to_f64
+  have h : (BitVec.cons m l &&& Gen.Col.HIGHEST_BIT_BV ≠ 0#64) ↔ m = true := by
     rw [Ne, and_hb_cons]; cases m <;> simp
   simp only [h]
   cases m
@@ -58,14 +58,14 @@ theorem u64_to_f64_cons (m : Bool) (l : BitVec 63) :
   · simp only [if_true]; rw [hb_cons, BitVec.cons_xor_cons]; simp
 
 /-- `i64_to_u64 x = x + 2^63` on the signed value -/
-theorem i64_to_u64_toNat (x : BitVec 64) : ((Gen.i64_to_u64 x).toNat : Int) = x.toInt + 2 ^ 63 := by
+theorem i64_to_u64_toNat (x : BitVec 64) : ((Gen.Col.i64_to_u64 x).toNat : Int) = x.toInt + 2 ^ 63 := by
   obtain ⟨m, l, rfl⟩ := split64 x
   rw [i64_to_u64_cons, BitVec.toInt_eq_msb_cond, BitVec.msb_cons, toNat_cons63, toNat_cons63]
   have := l.isLt
   cases m <;> simp <;> omega
 
 /-- `f64_to_u64 x = key x + 2^63` -/
-theorem f64_to_u64_toNat (x : BitVec 64) : ((Gen.f64_to_u64 x).toNat : Int) = f64Key x + 2 ^ 63 := by
+theorem f64_to_u64_toNat (x : BitVec 64) : ((Gen.Col.f64_to_u64 x).toNat : Int) = f64Key x + 2 ^ 63 := by
   obtain ⟨m, l, rfl⟩ := split64 x
   have hl := l.isLt
   rw [f64_to_u64_cons]
@@ -79,20 +79,20 @@ theorem f64_to_u64_toNat (x : BitVec 64) : ((Gen.f64_to_u64 x).toNat : Int) = f6
     simp
     omega
 
-theorem u64_to_i64_i64_to_u64 (x : BitVec 64) : Gen.u64_to_i64 (Gen.i64_to_u64 x) = x := by
+theorem u64_to_i64_i64_to_u64 (x : BitVec 64) : Gen.Col.u64_to_i64 (Gen.Col.i64_to_u64 x) = x := by
   obtain ⟨m, l, rfl⟩ := split64 x
   rw [i64_to_u64_cons, u64_to_i64_cons]; simp
 
-theorem i64_to_u64_u64_to_i64 (x : BitVec 64) : Gen.i64_to_u64 (Gen.u64_to_i64 x) = x := by
+theorem i64_to_u64_u64_to_i64 (x : BitVec 64) : Gen.Col.i64_to_u64 (Gen.Col.u64_to_i64 x) = x := by
   obtain ⟨m, l, rfl⟩ := split64 x
   rw [u64_to_i64_cons, i64_to_u64_cons]; simp
 
-theorem u64_to_f64_f64_to_u64 (x : BitVec 64) : Gen.u64_to_f64 (Gen.f64_to_u64 x) = x := by
+theorem u64_to_f64_f64_to_u64 (x : BitVec 64) : Gen.Col.u64_to_f64 (Gen.Col.f64_to_u64 x) = x := by
   obtain ⟨m, l, rfl⟩ := split64 x
   rw [f64_to_u64_cons]
   cases m <;> simp [u64_to_f64_cons]
 
-theorem f64_to_u64_u64_to_f64 (x : BitVec 64) : Gen.f64_to_u64 (Gen.u64_to_f64 x) = x := by
+theorem f64_to_u64_u64_to_f64 (x : BitVec 64) : Gen.Col.f64_to_u64 (Gen.Col.u64_to_f64 x) = x := by
   obtain ⟨m, l, rfl⟩ := split64 x
   rw [u64_to_f64_cons]
   cases m <;> simp [f64_to_u64_cons]
